@@ -36,3 +36,5 @@ def run(project, rep):
     rep.run(V.v_r8_token_tables, project, rep, modules_prefix=("ofxtools.scripts.ofxget",))
     rep.rule("J-R7", "account lists in the configuration file are read item by item whatever blanks follow the commas (the list reader / writer clause of G-R3)")
     rep.run_only(("G-R3",), G.g_rules, project, rep, constructs=("writer[list]/reader[list]",))
+    rep.rule("J-R8", "every account option of the command line is stored under the key the request composition reads: each argparse dest (the FIRST long option string names it) and each args[<k>] read is a DEFAULTS key (G-R2)")
+    rep.run_only(("G-R2",), G.g_rules, project, rep)
